@@ -45,18 +45,28 @@ def _feed(h, obj):
 
 class Log(object):
     """Event log whose digest identifies an execution.  Appending never draws from a PRNG and
-    never reads a clock."""
+    never reads a clock.  Events are tuples of ints, floats, strs, None and nested tuples/lists of
+    those, so that repr() is a stable serialisation."""
     def __init__(self, keep=0):
         self.h = hashlib.blake2b(digest_size=8)
         self.n = 0
         self.keep = keep
         self.events = []
+        self.buf = []
 
     def add(self, *event):
         self.n += 1
-        _feed(self.h, event)
+        self.buf.append(event)
         if self.keep and len(self.events) < self.keep:
             self.events.append(event)
+        if len(self.buf) >= 2048:
+            self._flush()
+
+    def _flush(self):
+        if self.buf:
+            self.h.update(repr(self.buf).encode('utf-8', 'backslashreplace'))
+            self.buf = []
 
     def digest(self):
+        self._flush()
         return self.h.hexdigest()
